@@ -41,7 +41,7 @@ Bad(W) ==
        <<~W.orig_same, "C19.original-changed">>,
        \* C20: the composed DAG called inside another DAG's describing function is its body written in place
        \* (known finding: two call sites of one re-used function given as inputs, the later call site first - the
-       \* stubs of the nested call then get the same id and the outer DAG fails to build, "already occupied")
+       \* stub of the earlier call site is renumbered and the outer DAG fails to build with a KeyError, W.noccupied)
        <<inEq /\ W.nested /\ (W.nraised \/ W.nval # exp.val) /\ ~(W.noccupied /\ ReusedReversed(P, W.ins)), "C20.composed-nested-value">>,
        <<inEq /\ W.nested /\ W.nraised /\ W.noccupied /\ ReusedReversed(P, W.ins), "C20.composed-nested-occupied">>,
        \* the direct call made just before has stored the setup results in the composed DAG
